@@ -1,7 +1,7 @@
 (* C05 property theorems.  Nothing but statements closed by `exact`, each followed by Print Assumptions.
    Representation: 0 is the field zero, i in [1,N] (N = q-1) is g^i; val/phi map a representation to the ring. *)
 From Coq Require Import ZArith List.
-From C05 Require Import Model Checker ExtModel ProofsZech ProofsArr ProofsField ProofsIrred ProofsExt ProofsSweep ProofsProps.
+From C05 Require Import Model Checker ExtModel GF2Model QadicModel ProofsZech ProofsArr ProofsField ProofsIrred ProofsExt ProofsSweep ProofsGF2 ProofsQadic ProofsProps.
 Local Open Scope Z_scope.
 
 Theorem C05_zech_macros_are_ring_operations : Zech_ops_stmt.       Proof. exact zech_ops. Qed.
@@ -32,3 +32,20 @@ Print Assumptions C05_extension_ops_are_quotient_ring_operations.
    the builder computes are accepted by tables_ok; the same statement for all fields is checked per field, not proved *)
 Theorem C05_builder_tables_accepted_partial : Builder_accepted_bounded_stmt.     Proof. exact builder_accepted_bounded. Qed.
 Print Assumptions C05_builder_tables_accepted_partial.
+(* GF2 (gf2.inl): all 19 variants, both destination kinds (bool& and std::vector<bool>::reference), ALL operand triples are
+   arithmetic in F_2; complete case analysis (finite domain) *)
+Theorem C05_gf2_operations_are_F2_arithmetic : GF2_ops_stmt.     Proof. exact gf2_ops. Qed.
+Print Assumptions C05_gf2_operations_are_F2_arithmetic.
+Theorem C05_gf2_overloads_agree : forall code a b c, gf2_op code true a b c = gf2_op code false a b c.
+Proof. exact gf2_overloads_agree. Qed.
+Print Assumptions C05_gf2_overloads_agree.
+(* q-adic transform of GFqExtFast (gfqext.h): REDQ digit extraction, decode of a packed accumulator, delayed reduction up to
+   n <= (2^bits-1)/(p-1)/(p-1)/k products; the bound of the source as found (2^bits/...) is refuted *)
+Theorem C05_qadic_redq_residues_are_digits_mod_p : Redq_stmt.     Proof. exact redq_ok. Qed.
+Print Assumptions C05_qadic_redq_residues_are_digits_mod_p.
+Theorem C05_qadic_init_decodes_packed_polynomial : Qadic_decode_stmt.     Proof. exact qadic_decode. Qed.
+Print Assumptions C05_qadic_init_decodes_packed_polynomial.
+Theorem C05_qadic_accumulator_digits_do_not_overflow : Qadic_dot_stmt.     Proof. exact qadic_dot. Qed.
+Print Assumptions C05_qadic_accumulator_digits_do_not_overflow.
+Theorem C05_qadic_maxdot_of_source_refuted : Maxdot_of_source_refuted_stmt.     Proof. exact maxdot_of_source_refuted. Qed.
+Print Assumptions C05_qadic_maxdot_of_source_refuted.
